@@ -24,6 +24,9 @@ import (
 type jMsg struct {
 	Token  string   `json:"token"`
 	Topics []string `json:"topics"`
+	// BadID: the message violates the replayer's ID mode (carries an ID with automatic IDs, none
+	// with manual IDs): Put rejects it, Publish returns that error, the message is still delivered.
+	BadID bool `json:"bad_id,omitempty"`
 }
 
 type jSub struct {
@@ -85,6 +88,7 @@ func (sc *jScenario) manualIDs() bool { return !sc.autoIDs() }
 // ---- trace ---------------------------------------------------------------------------------
 
 type jSubTrace struct {
+	VRet        time.Duration // virtual time at which Subscribe returned
 	Spec        *jSub
 	CallStamp   int64
 	RetStamp    int64
@@ -214,7 +218,7 @@ func buildReplayer(kind string, validTTL int64) (sse.Replayer, error) {
 func (sc *jScenario) newMessage(m jMsg) *sse.Message {
 	msg := &sse.Message{}
 	msg.AppendData(m.Token)
-	if sc.manualIDs() {
+	if sc.manualIDs() != m.BadID {
 		msg.ID = sse.ID("id-" + m.Token)
 	}
 	return msg
@@ -347,6 +351,7 @@ func runJoe(t *testing.T, sc *jScenario) (tr *jTrace) {
 				sleepUntil(spec.StartAt)
 				st.CallStamp = clock.Tick()
 				st.Ret = joe.Subscribe(ctx, sub)
+				st.VRet = time.Since(base)
 				st.RetStamp = clock.Tick()
 				st.Returned = true
 			}()
